@@ -18,6 +18,7 @@ def showErr : Err → String
   | .overflowError => "OverflowError"
   | .keyError => "KeyError"
   | .typeError => "TypeError"
+  | .bytesWarning => "BytesWarning"
 
 def showOutcome : Outcome → String
   | .float n d => s!"float {n} {d}"
@@ -67,6 +68,11 @@ def handle : List String → String
   | ["s2bx", text, fl] => s2bReply .other text fl        -- unit_system is a value that is not a str
   | ["s2bt", text, fl] => s2bReply .badTuple text fl     -- unit_system is a tuple whose length is not 1
   | ["s2bd", text, fl] => s2bReply .omitted text fl      -- unit_system omitted
+  | ["s2bb", text, fl, bw] =>                            -- unit_system is bytes; bw: interpreter runs with -bb
+    match unhexChars text, flagOf fl, bw with
+    | some _, some _, "0" => showRes (stringToBytesBytesSys false)
+    | some _, some _, "1" => showRes (stringToBytesBytesSys true)
+    | _, _, _ => "bad-request"
   | ["qemu", details] =>
     match unhexChars details with
     | some d => showQemu d (extractBytes d)
